@@ -199,9 +199,23 @@ def many_tiny(r, cid, nframes, scheme):
     return G.ss_case(cid, scheme, False, ops, "many-tiny-one-read", True)
 
 
+def big_then_small(r, cid, scheme):
+    """one task writes a chunk larger than a frame and, without yielding, a small one on the same stream: the pieces of
+    the first must all precede the second (seed C11-4: the remainder of an oversized chunk handed to the forwarding task)"""
+    big = r.choice([65536, 65537, 70000, 131071, 200000])
+    small = r.choice([1, 7, 100])
+    ops = ["O:c", "X:c:-", "N:s", "V:c:1:%d:%d" % (big, small), "X:c:-"]
+    ops += G.drain("s", 1, 0, [100000], 8)
+    ops += ["V:s:1:%d:%d" % (r.choice([65536, 99999]), small), "X:s:-"] + G.drain("c", 1, 0, [100000], 8)
+    ops += ["C:c", "X:c:-", "D:s:1:0:100", "T:s", "T:c"]
+    return G.ss_case(cid, scheme, True, ops, "big-then-small-back-to-back", True)
+
+
 def gen_cases(tier, seed):
     r = rng(seed, "C01")
     cs = []
+    for j in range(6 if tier == "quick" else 40):
+        cs.append(big_then_small(r, "bs%d" % j, j % len(G.SCHEMES)))
     for j, nf in enumerate([70, 130, 300, 600] if tier == "quick" else [65, 70, 100, 130, 200, 300, 600, 1000]):
         cs.append(many_tiny(r, "mt%d" % j, nf, (2, 4)[j % 2]))
     n = {"quick": 200, "thorough": 4000}[tier]
